@@ -103,8 +103,13 @@ def _emit(leaves):
     return out
 
 
+SKIP_INDEXMAP = False
+
+
 def _retarget(p):
     """map a use-path leaf to its verif_shim equivalent, or None"""
+    if SKIP_INDEXMAP and p and p[0] == "indexmap":
+        return None
     if len(p) >= 3 and p[0] == "std" and p[1] == "collections" and (p[2] in SHIM_STD or p[2] in SHIM_STD_MODS):
         return ("verif_shim",) + p[2:]
     if len(p) >= 2 and p[0] == "indexmap" and (p[1] in SHIM_INDEXMAP or p[1] in SHIM_INDEXMAP_MODS):
@@ -142,7 +147,9 @@ def t1_rewrite(text):
     text = "".join(out)
     # fully qualified paths in expressions / types
     text, k1 = re.subn(r"\bstd::collections::(HashMap|HashSet|BTreeMap|BTreeSet|hash_map|btree_map)\b", r"verif_shim::\1", text)
-    text, k2 = re.subn(r"(?<!verif_shim::)\bindexmap::(IndexMap|IndexSet|map::|set::)", r"verif_shim::indexmap::\1", text)
+    k2 = 0
+    if not SKIP_INDEXMAP:
+        text, k2 = re.subn(r"(?<!verif_shim::)\bindexmap::(IndexMap|IndexSet|map::|set::)", r"verif_shim::indexmap::\1", text)
     return text, n + k1 + k2
 
 
@@ -237,6 +244,8 @@ def build(group, cfg, profile="kani", dest=None, log=None):
         else:
             shutil.copy2(src, dst)
     info = {"root": dest, "digests": {}, "t1": 0, "t2": 0, "profile": profile}
+    global SKIP_INDEXMAP
+    SKIP_INDEXMAP = bool(cfg.get("t1_keep_indexmap"))
     kit_m = _kit_mtime()
 
     shim_path = os.path.join(VERIF, "kit", "verif_shim")
